@@ -430,7 +430,8 @@ pub fn fax_decode(data: &[u8], params: &CCITTFaxDecodeParams) -> Result<Vec<u8>>
         let rows = params.rows as usize;
 
         let height = if params.rows == 0 { None } else { Some(params.rows as u16)};
-        let mut buf = Vec::with_capacity(columns * rows);
+        // the declared size is not trusted for the allocation
+        let mut buf = Vec::with_capacity(columns.saturating_mul(rows).min(1 << 20));
         decode_g4(data.iter().cloned(), columns as u16, height, |line| {
             buf.extend(pels(line, columns as u16).map(|c| match c {
                 Color::Black => 0,
